@@ -40,6 +40,7 @@ type vpNet struct {
 	Hb   int    `json:"hb"`
 	Hi   string `json:"hi"`
 	Hz   int    `json:"hz"`
+	Ho   int64  `json:"ho"` // host part of the address as written in the configuration (0 = canonical CIDR)
 }
 type vpGroup struct {
 	W    uint32  `json:"w"`
@@ -85,11 +86,12 @@ func (n vpNet) addr(off int64) netip.Addr {
 	return netip.AddrFrom16(a)
 }
 
+// cidr renders the block the way the configuration writes it: possibly with host bits set (10.0.0.5/29)
 func (n vpNet) cidr() string {
 	if n.Fam == 4 {
-		return fmt.Sprintf("%s/%d", n.addr(0), 32-n.Hb)
+		return fmt.Sprintf("%s/%d", n.addr(n.Ho), 32-n.Hb)
 	}
-	return fmt.Sprintf("%s/%d", n.addr(0), 128-n.Hb)
+	return fmt.Sprintf("%s/%d", n.addr(n.Ho), 128-n.Hb)
 }
 
 func vpHiInt(fam int, hi string) *big.Int {
